@@ -260,7 +260,11 @@ impl<const N: u32> PxE1<{ N }> {
                     frac_z = 0;
                 }
 
-                exp_z <<= 29 - reg_z;
+                if reg_z <= 29 {
+                    exp_z <<= 29 - reg_z;
+                } else {
+                    exp_z >>= reg_z - 29;
+                }
 
                 let mut u_z = Self::pack_to_ui(regime, exp_z as u32, frac_z);
 
